@@ -67,8 +67,12 @@ CLAIMED['C20'] = dict(
     technique='Lean 4 induction over the answer script (all prefixes) + differential correspondence with injected interruptions', ref='7/C20')
 CLAIMED['C15'] = dict(
     text='Machine-checked proof (Lean 4), in EXACT INTEGER CENTS through a proved bridge between binary64 arithmetic and cents (F64Cents: round(a+-b, 2) of cent-valued doubles is the double of the exact cent sum, comparisons agree, for amounts up to 1e13 cents): the translated programs of Form 1040 lines 34, 35a, 36, 37 of each year are checked by the kernel (rfl on the REGENERATED terms) to have the shapes whose meaning is proved once; hence in every state the solver returns, stored overpayment minus amount owed = payments minus tax, both non-negative, at most one positive, and refund + applied-to-next-year = overpayment with both non-negative, for ANY requested amount. PARTIAL: the NC balance and non-negativity of the remaining lines are checked on explored solved returns only (no verified sign analysis yet).',
-    note='Trusted: Lean kernel; translator and DSL evaluator (validated by the real stream: real solver vs model on shipped forms, bit-exact values); F64 model (bit-exact stream incl. cents family). CatWF of the translated catalogue is a hypothesis.',
+    note='Trusted: Lean kernel; translator and DSL evaluator (validated by the real stream: real solver vs model on shipped forms, bit-exact values); F64 model (bit-exact stream incl. cents family). CatWF of the translated catalogue is proved (Dsl.mkCat_wf).',
     technique='Lean 4 proof over regenerated line programs + binary64-to-cents bridge; exploration for the uncovered lines', ref='7/C15')
+CLAIMED['C16'] = dict(
+    text='Machine-checked proof (Lean 4) in exact cents over the REGENERATED programs of Form 1040 (shapes checked by rfl each run): line 25a evaluates, for any number k <= 64 of W-2 copies, to the double of the SUM of the copies\' box-2 cents (symbolic evaluation of the comprehension sum([v[f"w-2:{n}.box_2"] for n in range(k)]) through the DSL evaluator, CPython\'s compensated float sum and the cents bridge), hence depends only on the multiset of amounts: renumbering the copies leaves it unchanged (renumbering_keeps_withholding); and in every state the solver returns, refund minus owed = 25a + 25b + 25c + 26 + 32 - 24 in cents (solved_net_is_payments_minus_tax), so each extra cent withheld moves it by exactly one cent when the other five lines keep their values. PARTIAL: independence of those five lines from W-2 box 2, renumbering invariance of the other per-payer totals and listing lines, and monotonicity of total tax in wages/deductions are decided by a metamorphic oracle on real solved returns (all permutations of 2-3 copies, sampled increments), not by a theorem; the tax function itself is proved non-decreasing in C07.',
+    note='Trusted: Lean kernel; translator + DSL evaluator + F64 model (validated by the real and f64 streams on every run). The oracle compares only pairs in which both returns solve, as the property says.',
+    technique='Lean 4 symbolic evaluation of regenerated line programs + binary64-to-cents bridge; metamorphic exploration for the relations not proved', ref='7/C16')
 NOT_YET = {}
 ALL = [f'C{i:02d}' for i in range(1, 21)]
 
